@@ -49,6 +49,7 @@ type Contract struct {
 	YieldN     string    // producer contract: number of values yielded ...
 	YieldE     string    // ... and the k-th value (index variable k); second value for Seq2
 	YieldE2    string
+	Uses       []string // `use LEMMA(arg, ...)`: ground instances of proved lemmas assumed at every return
 }
 
 type letDef struct {
@@ -109,7 +110,7 @@ var (
 var clauseKeywords = map[string]bool{
 	"property": true, "requires": true, "ensures": true, "assigns": true, "loop": true, "let": true,
 	"trusted": true, "pure": true, "fresh": true, "effects": true, "safety": true, "nosafety": true,
-	"implements": true, "rangefunc": true, "yields": true, "spec": true, "ghost": true, "axiom": true, "lemma": true, "reveal": true, "smt": true, "func": true, "extern": true, "iface": true, "fnparam": true, "const": true, "end": true,
+	"implements": true, "use": true, "rangefunc": true, "yields": true, "spec": true, "ghost": true, "axiom": true, "lemma": true, "reveal": true, "smt": true, "func": true, "extern": true, "iface": true, "fnparam": true, "const": true, "end": true,
 }
 
 // parseContractFile reads every //@ line of a file.
@@ -325,6 +326,8 @@ func (sp *Specs) parseContractFile(path string, pkgPath string) error {
 				if len(parts) > 2 {
 					cur.YieldE2 = strings.TrimSpace(parts[2])
 				}
+			case "use":
+				cur.Uses = append(cur.Uses, body)
 			case "reveal":
 				cur.Reveal = append(cur.Reveal, strings.Fields(body)...)
 			case "implements":
